@@ -777,11 +777,8 @@ def _unslice(bdim, cases, per_case, out_axis):
         for p, d in zip(phs, ds):
             pairs.append((p, zi(d)))
         hy = [h for (b2, hs) in cases if key_of(b2) == key_of(bi) for h in hs]
-        sym.CTX.hyps.extend(hy)
-        try:
+        with sym.scope(hy):
             t = r.elem(rest)
-        finally:
-            del sym.CTX.hyps[len(sym.CTX.hyps) - len(hy):]
         return _subst(t, pairs)
 
     return SArray(dims, elem, r0.dtype, r0.taint)
